@@ -371,8 +371,14 @@ func TestAdhoc(t *testing.T) {
 	defer func() {
 		fmt.Printf("nontrivial=%d probes=%v\n", ntCount, probes)
 	}()
+	if one := envInt("VERIF_ONESEED", 0); one != 0 {
+		from, n = 0, 1
+	}
 	for i := from; i < from+n; i++ {
 		seed := DeriveSeed(base, prop, i)
+		if one := envInt("VERIF_ONESEED", 0); one != 0 {
+			seed = one
+		}
 		sc := p.Gen(seed, tier)
 		r := Execute(t, sc, nil)
 		nt := p.Nontrivial != nil && p.Nontrivial(r)
